@@ -77,6 +77,19 @@ func OriginalModule(m Meta) *Module {
 	}
 }
 
+// BelongsToModule is the module itself or, for a submodule, the module it belongs to. Data
+// defined in a submodule is in the name space of that module.
+func BelongsToModule(mod *Module) *Module {
+	for mod.belongsTo != nil {
+		parent, isModule := mod.parent.(*Module)
+		if !isModule {
+			break
+		}
+		mod = parent
+	}
+	return mod
+}
+
 func splitIdent(ident string) (string, string) {
 	i := strings.IndexRune(ident, ':')
 	if i < 0 {
